@@ -263,6 +263,178 @@ def angle_sites() -> tuple[list[tuple[str, str, int]], dict]:
     return sites, info
 
 
+# ---------------------------------------------------------------------------------------------- constructor dispatch
+ARG_FORMS = ('FNumber', 'FSameClass', 'FOtherAngle', 'FVec', 'FFrozenVec', 'FIterable')
+_ALL_OBJECT_FORMS = {'FSameClass', 'FOtherAngle', 'FVec', 'FFrozenVec', 'FIterable'}
+
+
+def _forms_of_class_name(name: str, own: str, in_new: bool, first: str) -> set[str] | None:
+    """The argument forms (of ARG_FORMS) whose objects are instances of the class called `name`, seen from the
+    constructor of class `own`; None when the name is not known."""
+    bare = name[3:] if name.startswith('Py_') else name
+    if in_new and name == first:
+        return {'FSameClass'}
+    if bare in ('int', 'float', 'bool', 'Real', 'Number', 'SupportsFloat'):
+        return {'FNumber'}
+    if bare == own:
+        return {'FSameClass'}
+    if bare in ('Angle', 'FrozenAngle'):
+        return {'FOtherAngle'}
+    if bare == 'AngleBase':
+        return {'FSameClass', 'FOtherAngle'}
+    if bare == 'VecBase':
+        return {'FVec', 'FFrozenVec'}
+    if bare == 'Vec':
+        return {'FVec'}
+    if bare == 'FrozenVec':
+        return {'FFrozenVec'}
+    if bare in ('Iterable', 'Iterator', 'Collection', 'Sequence'):
+        return set(_ALL_OBJECT_FORMS) if bare == 'Iterable' else None
+    if bare in ('str', 'bytes', 'MatrixBase', 'Matrix', 'FrozenMatrix', 'dict', 'NoneType'):
+        return set()
+    return None
+
+
+def _form_test(t: ast.AST, form: str, param: str, own: str, in_new: bool, first: str) -> bool | None:
+    """Value of a dispatch test for an argument of the given form (three-valued)."""
+    if isinstance(t, ast.UnaryOp) and isinstance(t.op, ast.Not):
+        v = _form_test(t.operand, form, param, own, in_new, first)
+        return None if v is None else not v
+    if isinstance(t, ast.BoolOp):
+        vals = [_form_test(x, form, param, own, in_new, first) for x in t.values]
+        if isinstance(t.op, ast.And):
+            return False if any(v is False for v in vals) else None if any(v is None for v in vals) else True
+        return True if any(v is True for v in vals) else None if any(v is None for v in vals) else False
+    if isinstance(t, ast.Call) and isinstance(t.func, ast.Name) and t.func.id == 'isinstance' and len(t.args) == 2 and not t.keywords \
+            and isinstance(t.args[0], ast.Name) and t.args[0].id == param:
+        c = t.args[1]
+        if isinstance(c, ast.Name) and c.id in _CONSTS:
+            c = _CONSTS[c.id]
+        names = c.elts if isinstance(c, ast.Tuple) else [c]
+        acc: set[str] = set()
+        for n in names:
+            nm = n.id if isinstance(n, ast.Name) else n.attr if isinstance(n, ast.Attribute) else None
+            fs = _forms_of_class_name(nm, own, in_new, first) if nm else None
+            if fs is None:
+                return None
+            acc |= fs
+        return form in acc
+    return None
+
+
+def angle_ctor_rows(tree: ast.Module) -> tuple[list[tuple[str, str, str]], dict]:
+    """Angle.__init__ / FrozenAngle.__new__ run symbolically once per argument form (Num/AngleCtor.v): which branch the
+    form takes and what that branch does - hands the argument back, or stores three values whose kinds are classified
+    as for the store-site census (a slot copied unchanged counts as a copy only when it is read from the dispatched
+    argument itself).  Anything not understood on the path of a form is AUnknown for that form (fail closed)."""
+    _CONSTS.clear(); _CONSTS.update(_module_consts(tree))
+    _HELPERS.clear(); _HELPERS.update(_single_return_helpers(tree))
+    rows: list[tuple[str, str, str]] = []
+    ctors: list[str] = []
+    notes: dict[str, str] = {}
+    for own in ('Angle', 'FrozenAngle'):
+        cdef = next((c for c in tree.body if isinstance(c, ast.ClassDef) and c.name == own), None)
+        if cdef is None:
+            raise TranslateError(f'class {own} not found')
+        defs = [f for f in cdef.body if isinstance(f, ast.FunctionDef) and f.name in ('__new__', '__init__') and not _is_stub(f)]
+        cname = f'{own}.' + '+'.join(f.name for f in defs) if defs else f'{own}.<inherited constructor>'
+        ctors.append(cname)
+        if len(defs) != 1:
+            rows += [(cname, fm, 'AUnknown') for fm in ARG_FORMS]
+            notes[cname] = 'the class does not define exactly one of __new__ / __init__'
+            continue
+        fn = defs[0]
+        in_new = fn.name == '__new__'
+        params = [a.arg for a in fn.args.posonlyargs + fn.args.args]
+        if len(params) < 2 or fn.args.vararg or fn.args.kwarg:
+            rows += [(cname, fm, 'AUnknown') for fm in ARG_FORMS]
+            notes[cname] = 'signature not understood'
+            continue
+        first, param = params[0], params[1]
+        env = _single_bindings(fn)
+
+        def kind_of(v: ast.AST) -> str:
+            k = classify_rhs(v, env)
+            if k == 'CopyFromAngle':
+                w = v
+                for _ in range(6):
+                    if isinstance(w, ast.Name) and w.id in env:
+                        w = env[w.id]
+                if not (isinstance(w, ast.Attribute) and isinstance(w.value, ast.Name) and w.value.id == param):
+                    return 'Other'          # a slot of some other object: nothing is known about it here
+            return k
+
+        def run(stmts: list[ast.stmt], form: str, obj: str | None, st: dict[str, str]):
+            """-> (action or None for fall-through, obj, stores)"""
+            for s_ in _nodoc(stmts):
+                if isinstance(s_, ast.If):
+                    v = _form_test(s_.test, form, param, own, in_new, first)
+                    if v is None:
+                        return 'AUnknown', obj, st
+                    act, obj, st = run(s_.body if v else s_.orelse, form, obj, st)
+                    if act is not None:
+                        return act, obj, st
+                    continue
+                if isinstance(s_, ast.Return):
+                    if s_.value is None or (isinstance(s_.value, ast.Constant) and s_.value.value is None):
+                        return (('AStores', st) if not in_new else 'AUnknown'), obj, st
+                    if in_new and isinstance(s_.value, ast.Name):
+                        if s_.value.id == param:
+                            return 'AReturnArg', obj, st
+                        if s_.value.id == obj:
+                            return ('AStores', st), obj, st
+                    return 'AUnknown', obj, st
+                if isinstance(s_, (ast.Assign, ast.AnnAssign)):
+                    if isinstance(s_, ast.AnnAssign) and s_.value is None:
+                        continue
+                    tg = s_.targets if isinstance(s_, ast.Assign) else [s_.target]
+                    if len(tg) != 1:
+                        return 'AUnknown', obj, st
+                    t = tg[0]
+                    pairs: list[tuple[ast.AST, ast.AST]] = []
+                    if isinstance(t, (ast.Tuple, ast.List)):
+                        if isinstance(s_.value, (ast.Tuple, ast.List)) and len(s_.value.elts) == len(t.elts) \
+                                and not any(isinstance(e, ast.Starred) for e in t.elts + s_.value.elts):
+                            pairs = list(zip(t.elts, s_.value.elts))
+                        elif all(isinstance(e, ast.Name) and e.id not in (param, obj, first) for e in t.elts):
+                            continue            # unpacking into plain locals
+                        else:
+                            return 'AUnknown', obj, st
+                    else:
+                        pairs = [(t, s_.value)]
+                    st = dict(st)
+                    for tt, vv in pairs:
+                        if isinstance(tt, ast.Name):
+                            if tt.id in (param, first):
+                                return 'AUnknown', obj, st          # the dispatched argument is rebound
+                            if isinstance(vv, ast.Call) and isinstance(vv.func, ast.Attribute) and vv.func.attr == '__new__':
+                                if obj is not None or not in_new:
+                                    return 'AUnknown', obj, st
+                                obj = tt.id
+                            elif tt.id == obj:
+                                return 'AUnknown', obj, st
+                            continue
+                        if isinstance(tt, ast.Attribute) and isinstance(tt.value, ast.Name) and tt.value.id == obj and tt.attr in FIELDS:
+                            st[tt.attr] = kind_of(vv)
+                            continue
+                        return 'AUnknown', obj, st
+                    continue
+                if isinstance(s_, ast.Pass):
+                    continue
+                return 'AUnknown', obj, st                      # loops, try, with, raise, calls as statements, nested defs ...
+            return None, obj, st
+
+        for fm in ARG_FORMS:
+            act, _, st = run(fn.body, fm, None if in_new else first, {})
+            if act is None:
+                act = ('AStores', st) if not in_new else 'AUnknown'
+            if isinstance(act, tuple):
+                st = act[1]
+                act = f'(AStores {st["_pitch"]} {st["_yaw"]} {st["_roll"]})' if all(f in st for f in FIELDS) else 'AUnknown'
+            rows.append((cname, fm, act))
+    return rows, {'angle_ctor_notes': notes, 'angle_ctors': ctors}
+
+
 # ---------------------------------------------------------------------------------------------- angle creations
 ANGLE_CTORS = {'Angle', 'Py_Angle', 'FrozenAngle', 'Py_FrozenAngle'}
 ANGLE_CLASSES = ('AngleBase', 'Angle', 'FrozenAngle')
@@ -1941,6 +2113,8 @@ def translate() -> tuple[str, dict]:
     sites, info = angle_sites()
     creations, cinfo = angle_creations(tree)
     info.update(cinfo)
+    ctor_rows, crinfo = angle_ctor_rows(tree)
+    info.update(crinfo)
     cfg = format_cfg(tree)
     pcfg = parse_cfg(tree)
     strs = str_templates(tree)
@@ -1969,7 +2143,7 @@ def translate() -> tuple[str, dict]:
     lines = [
         '(* GENERATED by translate/c05_sites.py from src/srctools/math.py. Do not edit. *)',
         'From Coq Require Import ZArith NArith List String.',
-        'From SV Require Import Num.Dec6 Num.AngleSites Num.VecText SM.FrozenOps SM.FrozenCopy SM.FrozenCopyValue.',
+        'From SV Require Import Num.Dec6 Num.AngleSites Num.AngleCtor Num.VecText SM.FrozenOps SM.FrozenCopy SM.FrozenCopyValue.',
         'Import ListNotations.', 'Open Scope string_scope.',
         '(* every store to an _pitch/_yaw/_roll slot: (file:Class.function:slot, classification of the stored value) *)',
         'Definition angle_sites : list (string * rhs) := [',
@@ -1978,6 +2152,11 @@ def translate() -> tuple[str, dict]:
         '(* every expression that creates an Angle/FrozenAngle object: (function, how its slots get written) *)',
         'Definition angle_creations : list (string * creation) := [',
         ';\n'.join(f'  ({_s(w)}, {k})' for w, k, _ in creations),
+        '].',
+        '(* Angle.__init__ / FrozenAngle.__new__ run once per form of the first argument: (constructor, form, what that path does) *)',
+        'Definition angle_ctors : list string := [' + '; '.join(_s(c) for c in crinfo['angle_ctors']) + '].',
+        'Definition angle_ctor_rows : list ctor_row := [',
+        ';\n'.join(f'  ({_s(c)}, {fm}, {a})' for c, fm, a in ctor_rows),
         '].',
         f'Definition to_angle_stores_all_slots : bool := {b(cinfo["stores_all_slots_on_every_path"]["MatrixBase._to_angle"])}.',
         f'Definition angle_init_stores_all_slots : bool := {b(cinfo["stores_all_slots_on_every_path"]["Angle.__init__"])}.',
@@ -2011,7 +2190,7 @@ def translate() -> tuple[str, dict]:
         '].',
         '',
     ]
-    side = {'fresh_by_name': [list(x) for x in fresh], 'copy_shapes': [list(x) for x in shapes], 'angle_sites': [list(s) for s in sites], 'angle_creations': [list(c) for c in creations], 'format_float': cfg, 'parse_vec_str': pcfg, 'str_templates': strs,
+    side = {'angle_ctor_rows': [list(r) for r in ctor_rows], 'fresh_by_name': [list(x) for x in fresh], 'copy_shapes': [list(x) for x in shapes], 'angle_sites': [list(s) for s in sites], 'angle_creations': [list(c) for c in creations], 'format_float': cfg, 'parse_vec_str': pcfg, 'str_templates': strs,
             'mut_events': [list(m) for m in muts], 'result_kinds': [list(r) for r in results], 'n_methods': len(meths), **info,
             'digests': {'parse_vec_str': _digest(tree, 'parse_vec_str'), 'format_float': cfg['digest']}}
     return '\n'.join(lines), side
